@@ -60,13 +60,26 @@ pub struct Prog {
     pub src: String,
 }
 
-const NAME_POOL: [&str; 12] = ["zeta", "alpha", "mid", "beta", "omega", "gamma", "delta", "kappa", "eps", "rho", "tau", "phi"];
+// several identifier styles: fields are named after the variables exactly
+const NAME_POOL: [&str; 12] = ["zeta", "alpha", "baseColor", "beta", "PerMaterial", "gamma", "delta", "MVP", "eps", "rho", "tau_x", "phi"];
 
 /// `decl_order`: list of (group, binding) in declaration order.
 pub fn build(decl_order: &[(u32, u32)], kind_offset: usize, key: String) -> Prog {
+    build_with_unbound(decl_order, kind_offset, 0, key)
+}
+
+/// `unbound`: 0 none; 1 an unbound module-scope variable before every resource; 2 after the first resource only;
+/// 3 a push constant between the resources.
+pub fn build_with_unbound(decl_order: &[(u32, u32)], kind_offset: usize, unbound: u8, key: String) -> Prog {
     let mut vars = vec![];
     let mut src = String::new();
     for (i, (g, b)) in decl_order.iter().enumerate() {
+        match unbound {
+            1 => src.push_str(&format!("var<private> unbound_{i}: vec4<f32>;\n")),
+            2 if i == 1 => src.push_str("var<workgroup> unbound_wg: array<u32, 4>;\n"),
+            3 if i == 1 => src.push_str("var<push_constant> unbound_pc: vec4<f32>;\n"),
+            _ => {}
+        }
         let kind = KINDS[(i + kind_offset) % KINDS.len()];
         let name = format!("{}_{}", NAME_POOL[(i * 5 + kind_offset) % NAME_POOL.len()], i);
         src.push_str(&kind.decl(&name, *g, *b));
@@ -399,6 +412,19 @@ pub fn space(thorough: bool) -> Vec<Prog> {
                     n += 1;
                     out.push(build(&il, n % 5, format!("g3|{a:?}|{b:?}|{c:?}|{}", il.iter().map(|(g, _)| g.to_string()).collect::<String>())));
                 }
+            }
+        }
+    }
+    // unbound module-scope variables (private / workgroup / push constant) between the resource declarations
+    for a in &small {
+        for b in &small {
+            for unbound in 1..=3u8 {
+                let ga: Vec<(u32, u32)> = a.iter().map(|x| (0, *x)).collect();
+                let gb: Vec<(u32, u32)> = b.iter().map(|x| (1, *x)).collect();
+                let mut il = ga.clone();
+                il.extend(gb.clone());
+                n += 1;
+                out.push(build_with_unbound(&il, n % 5, unbound, format!("unbound{unbound}|{a:?}|{b:?}")));
             }
         }
     }
